@@ -91,6 +91,22 @@ func linkGuard(f *ssa.Function, p ssa.Value, at ssa.Instruction) (bool, ssa.Inst
 
 func isLinkPredicate(v ssa.Value, info ssa.Value) bool {
 	switch x := v.(type) {
+	case *ssa.Phi:
+		// `err == nil && IsSymLink(info)` kept in a variable: true only through the predicate
+		pred := false
+		for _, e := range x.Edges {
+			if b, isC := constBool(e); isC {
+				if b {
+					return false
+				}
+				continue
+			}
+			if !isLinkPredicate(e, info) {
+				return false
+			}
+			pred = true
+		}
+		return pred
 	case *ssa.Call:
 		n := calleeFull(&x.Call)
 		if strings.HasSuffix(n, "filesystem.IsSymLink") && len(x.Call.Args) == 1 && sameValue(x.Call.Args[0], info) {
@@ -134,6 +150,7 @@ func runC04(c *Ctx) {
 	c.rule("N2", "a successful return justified by a link-following Exists()==false is preceded by the Lstat link test on the same path", 2)
 	c.rule("N4", "entries matching an exclusion pattern survive: the pattern list is compiled in full (NewExclusionRegexList leaves its loops only at the end of the list or on an error)", 1)
 	c.rule("N5", "the Lstat link test of the removal functions is made on a cleaned path: Lstat of a path that ends with a separator resolves the link, so the caller's spelling must not reach it", 2)
+	c.rule("N6", "in the removal call graph, operations that act through symbolic links (chown, chmod, chtimes) are applied only to paths found not to be links", 1)
 	c.rule("N3", "removal primitives in the removal call graph are afero.Fs.Remove and the privileged fallback only (no RemoveAll)", 2)
 
 	c.patternLoopsComplete("N4")
@@ -204,6 +221,64 @@ func runC04(c *Ctx) {
 			c.violate("N1", key, c.ipos(cl), "the decision to descend into this path rests on link-following tests (Exists/IsDir/IsEmpty use Stat): a symbolic link to a directory found in the tree is followed and what lies behind it — outside the tree — is deleted")
 		})
 	}
+
+	// ---- N6 -----------------------------------------------------------------
+	// chown / chmod / chtimes follow symbolic links: in the removal call graph they are only applied to a path that was
+	// found not to be a link — otherwise what the link points to, outside the tree, is modified.
+	nFollow := 0
+	for _, f := range fns {
+		allInstrs(f, func(in ssa.Instruction) {
+			cl, ok := in.(*ssa.Call)
+			if !ok {
+				return
+			}
+			name, args, isFs := fsMethodCall(cl)
+			if !isFs {
+				return
+			}
+			switch name {
+			case "Chown", "ChangeOwnership", "Chmod", "Chtimes", "ChownRecursively", "ChangeOwnershipRecursively", "ChmodRecursively":
+			default:
+				return
+			}
+			var p ssa.Value
+			for _, a := range args {
+				if a.Type().String() == "string" {
+					p = a
+					break
+				}
+			}
+			if p == nil {
+				return
+			}
+			outer := outermost(f)
+			// the primitives themselves (Chown called by ChangeOwnership on its own parameter): the obligation is on their callers
+			if pi := paramIndex(outer, resolveValue(p)); pi >= 0 && (outer.Name() == "ChangeOwnership" || outer.Name() == "Chown") {
+				return
+			}
+			nFollow++
+			key := fname(outer) + "/through-links:" + name
+			okG, where := linkGuard(f, p, cl)
+			if !okG {
+				// the link test may be made on the cleaned spelling of the same path
+				allInstrs(f, func(j ssa.Instruction) {
+					if lc, isCall := j.(*ssa.Call); isCall {
+						if ln, largs, isL := fsMethodCall(lc); isL && ln == "Lstat" && len(largs) > 0 && operandReaches(largs[0], p, 4) {
+							if g, w := linkGuard(f, largs[0], cl); g {
+								okG, where = true, w
+							}
+						}
+					}
+				})
+			}
+			if okG {
+				c.ok("N6", key, c.ipos(cl), "applied only where the path was found not to be a link ("+c.ipos(where)+")")
+			} else {
+				c.violate("N6", key, c.ipos(cl), name+" follows symbolic links and is applied to a path that may be one: what the link points to — outside the tree being removed — has its owner, mode or times changed")
+			}
+		})
+	}
+	c.Extra["link_following_mutations"] = nFollow
 
 	// ---- N2 -----------------------------------------------------------------
 	for _, f := range fns {
